@@ -24,7 +24,11 @@ from frappy.server import Server
 REG = {}       # class registry the generated config files import from
 NUMERIC = ('double', 'int', 'scaled')
 ERROR_KINDS = ('unknown-name', 'unknown-param-property', 'wrong-type-value', 'missing-mandatory', 'needscfg',
-               'inverted-limits', 'bad-module-property')
+               'inverted-limits', 'bad-module-property', 'optional-not-implemented')
+
+
+def rng_choice_opt(cfg):
+    return 'opt_b = 50' if cfg.get('opt_style', 0) == 0 else 'opt_b = Param(50, max = 80)'
 
 
 def pyrepr(di, wire):
@@ -70,6 +74,8 @@ class C10(Check):
                 s['mandatory_prop'] = True
             if rng.random() < 0.3:
                 s['needscfg'] = f'p{len(s["params"])}'
+            if rng.random() < 0.25:
+                s['optional'] = True
             specs.append(s)
         cfgs = {}
         for s in specs:
@@ -122,6 +128,9 @@ class C10(Check):
                 cfgs[s['name']]['need'] = 'given'
             if s.get('needscfg'):
                 cfgs[s['name']]['needscfg_value'] = rng.randrange(100)
+            if s.get('optional'):
+                cfgs[s['name']]['opt_a'] = rng.choice([None, 3.5, 20])
+                cfgs[s['name']]['opt_style'] = rng.choice([0, 1])
         nerr = rng.choice([0, 0, 0, 1, 1, 2, 3])
         names = list(cfgs)
         for _ in range(nerr):
@@ -129,6 +138,8 @@ class C10(Check):
             kind = rng.choice(ERROR_KINDS)
             spec = next(s for s in specs if s['name'] == m)
             if kind == 'missing-mandatory' and not spec.get('mandatory_prop'):
+                kind = 'unknown-name'
+            if kind == 'optional-not-implemented' and not spec.get('optional'):
                 kind = 'unknown-name'
             if kind == 'needscfg' and not spec.get('needscfg'):
                 kind = 'unknown-param-property'
@@ -185,6 +196,11 @@ class C10(Check):
                     kw.append(f'{e["p"]} = Param({", ".join(parts)})')
             if 'unknown-name' in errs:
                 kw.append('no_such_thing = 5')
+            if spec.get('optional') and cfg.get('opt_a') is not None:
+                kw.append(f'opt_a = {cfg["opt_a"]}')
+            if 'optional-not-implemented' in errs:
+                # a section copied from a sibling class which implements this optional parameter
+                kw.append(rng_choice_opt(cfg))
             if 'unknown-param-property' in errs:
                 tgt = next(p['name'] for p in spec['params'] if p['name'] != 'status')
                 kw = [x for x in kw if not x.startswith(tgt + ' =')]
@@ -233,6 +249,17 @@ class C10(Check):
             if extra:
                 extra['__module__'] = cls.__module__
                 cls = type(cls.__name__ + 'X', (cls,), extra)
+            if spec.get('optional'):
+                # optional parameters declared in a base class: opt_a is implemented by the class of the module,
+                # opt_b is not - for this class it is an unknown name
+                from frappy.core import Parameter, FloatRange
+                base = type(cls.__name__ + 'Opt', (cls,), {
+                    '__module__': cls.__module__,
+                    'opt_a': Parameter('optional, implemented', FloatRange(0, 100), default=1, readonly=False, optional=True),
+                    'opt_b': Parameter('optional, not implemented', FloatRange(0, 100), default=2, readonly=False,
+                                       optional=True)})
+                classes.append(base)
+                cls = type(cls.__name__ + 'Impl', (base,), {'__module__': cls.__module__, 'opt_a': Parameter()})
             classes.append(cls)
             REG[spec['name']] = cls
         cfgdir = Path(env.SCRATCH) / f'c10-{os.getpid()}' / 'cfg'
